@@ -76,9 +76,14 @@ fn compress_small() {
 #[test]
 fn fixword_print_parse() {
     std::panic::set_hook(Box::new(|_| {}));
+    // The printed digits of the fraction depend only on |x| mod 2^20 and the integer part is printed and read as an
+    // integer, so the 2^32 patterns decompose: EVERY fraction (thorough; every 7th in the quick tier) with three integer
+    // parts and both signs, and every integer part 0..=2047 with four fractions and both signs.
+    let thorough = std::env::var("VERIF_TIER").map(|t| t == "thorough").unwrap_or(false);
     let mut xs: Vec<i32> = vec![];
-    for f in (0..(1 << 20)).step_by(97) { xs.push(f); xs.push(-f); xs.push((5 << 20) + f); xs.push(-(2047 << 20) - f); }
-    for b in [0i64, 1, 2, 3, 1 << 19, (1 << 20) - 1, 1 << 20, (1 << 20) + 1, (2047 << 20) + 0xfffff, (16 << 20) - 1] { xs.push(b as i32); xs.push(-(b as i32)); }
+    for f in (0..(1i64 << 20)).step_by(if thorough { 1 } else { 7 }) { for ip in [0i64, 7, 2047] { let v = (ip << 20) + f; xs.push(v as i32); xs.push((-v) as i32); } }
+    for ip in 0..=2047i64 { for f in [0i64, 1, 1 << 19, (1 << 20) - 1] { let v = (ip << 20) + f; xs.push(v as i32); xs.push((-v) as i32); } }
+    xs.push(i32::MIN);
     for x in xs {
         let printed = format!("{}", FixWord(x));
         let src = format!("(FONTDIMEN (SLANT R {}))", printed);
